@@ -515,15 +515,27 @@ func mkP(op opcode, s ssort, p0, p1 int, name string, args ...*term) *term {
 			return mkP(oURem, s, p0, p1, name, args...)
 		}
 	}
-	// (C + x) / k and (C + x) % k with k | C and 0 <= x < k (by range): C/k and x.  This is the shape of
-	// "seconds since an epoch" split into a concrete day and a symbolic second of the day.
+	// x / k and x % k with 0 <= x < k by range: 0 and x.  (C + x) / k and (C + x) % k with a large constant C (seconds
+	// since an epoch split into a concrete day and a symbolic second, say): C/k + (r + x)/k and (r + x) % k with
+	// r = C mod k, valid when C + x cannot wrap; the remaining operands are small and are narrowed below.
 	if (op == oUDiv || op == oURem) && s == sBV64 && len(args) == 2 && args[1].isConst() && args[1].bits != 0 && !args[0].isConst() {
-		if x, c, ok := splitConstOffset(args[0]); ok && c%args[1].bits == 0 {
-			if lo, hi, okr := x.bvRange(); okr && lo >= 0 && uint64(hi) < args[1].bits {
-				if op == oUDiv {
-					return tBV(64, c/args[1].bits)
+		k := args[1].bits
+		if lo, hi, okr := args[0].bvRange(); okr && lo >= 0 && uint64(hi) < k {
+			if op == oUDiv {
+				return tBV(64, 0)
+			}
+			return args[0]
+		}
+		if x, c, ok := splitConstOffset(args[0]); ok && c >= k {
+			if lo, hi, okr := x.bvRange(); okr && lo >= 0 && c <= ^uint64(0)-uint64(hi) && uint64(hi) < 1<<40 {
+				base := x
+				if r := c % k; r != 0 {
+					base = mk(oAdd, sBV64, x, tBV(64, r))
 				}
-				return x
+				if op == oUDiv {
+					return mk(oAdd, sBV64, tBV(64, c/k), mkP(oUDiv, sBV64, p0, p1, name, base, args[1]))
+				}
+				return mkP(oURem, sBV64, p0, p1, name, base, args[1])
 			}
 		}
 	}
@@ -671,6 +683,10 @@ func mkP(op opcode, s ssort, p0, p1 int, name string, args ...*term) *term {
 		}
 		if args[0].isConst() && args[0].bits == 0 {
 			return args[1]
+		}
+		// the constant of a sum goes last, so that nested constants meet and fold below
+		if op == oAdd && args[0].isConst() && !args[1].isConst() {
+			return mk(oAdd, s, args[1], args[0])
 		}
 		// (x + c1) + c2 => x + (c1+c2)
 		if op == oAdd && args[1].isConst() && args[0].op == oAdd && args[0].args[1].isConst() {
